@@ -23,6 +23,9 @@ type Step struct {
 
 type Case struct {
 	Steps []Step `json:"steps"`
+	// Mix: after the history, this token sequence (operands a b c, @N = N(b,c,d), operator names) is read
+	// under the resulting table (see mix.go)
+	Mix []string `json:"mix,omitempty"`
 }
 
 func (s Step) String() string {
@@ -37,6 +40,9 @@ func (c Case) String() string {
 	ss := make([]string, len(c.Steps))
 	for i, s := range c.Steps {
 		ss[i] = s.String()
+	}
+	if c.Mix != nil {
+		return strings.Join(ss, ", ") + "; then read: " + strings.Join(c.Mix, " ")
 	}
 	return strings.Join(ss, ", ")
 }
@@ -269,8 +275,9 @@ func quoteAll(t *rt.Term) string {
 }
 
 type stats struct {
-	accepted, rejected, removals, lists int
-	probes                              int
+	accepted, rejected, removals, lists      int
+	probes                                   int
+	mix, mixUnique, mixRefused, mixAmbiguous int
 }
 
 func check(c Case) (st stats, err error) {
@@ -371,6 +378,11 @@ func check(c Case) (st stats, err error) {
 			if !eqStrings(got, want) {
 				return st, fmt.Errorf("step %d %s: %s", k+1, s, diffStrings(got, want))
 			}
+		}
+	}
+	if c.Mix != nil {
+		if err := mixProbe(i, m, c.Mix, &st); err != nil {
+			return st, fmt.Errorf("after the history: %v", err)
 		}
 	}
 	return st, nil
@@ -552,16 +564,90 @@ func genStep() *rapid.Generator[Step] {
 	})
 }
 
+var mixNames = []string{"foo", "bar", "zz", "~", "<>", "===", "mod", "=", "+", "-", "**", "is", "\\+", ":-", "*", "<", "^", "rem", "-->", "?-", "\\", "dynamic"}
+
 func genCase() *rapid.Generator[Case] {
 	return rapid.Custom(func(t *rapid.T) Case {
+		if u(t, 2, "mixcase") == 0 {
+			return genMix(t)
+		}
 		return Case{Steps: rapid.SliceOfN(genStep(), 1, 25).Draw(t, "steps")}
 	})
+}
+
+// genMix: 0-4 valid definitions over a few names, then a token sequence built from the resulting table:
+// [prefix]* operand [postfix]* (infix [prefix]* operand [postfix]*)*, operators drawn by class (now and then
+// from the wrong class), operands a/b/c or an operator name in functional notation.
+func genMix(t *rapid.T) Case {
+	var c Case
+	m := initial()
+	for k, n := 0, u(t, 5, "ndefs"); k < n; k++ {
+		s := Step{Kind: "op", P: rt.I(pris[u(t, len(pris), "p")]), T: rt.A(specs[u(t, len(specs), "t")]), N: rt.A(mixNames[u(t, len(mixNames), "n")])}
+		c.Steps = append(c.Steps, s)
+		if v, ns := decide(m, s); v == accept {
+			apply(m, s, ns)
+		}
+	}
+	byClass := [3][]string{}
+	var any []string
+	for _, n := range mixNames {
+		cl, cnt := -1, 0
+		for k := 0; k < 3; k++ {
+			if _, ok := m[key{n, k}]; ok {
+				cl = k
+				cnt++
+			}
+		}
+		if cnt == 1 {
+			byClass[cl] = append(byClass[cl], n)
+			any = append(any, n)
+		}
+	}
+	pick := func(class int, l string) (string, bool) {
+		pool := byClass[class]
+		if u(t, 12, "wrongclass") == 0 {
+			pool = any
+		}
+		if len(pool) == 0 {
+			return "", false
+		}
+		return pool[u(t, len(pool), l)], true
+	}
+	operand := func() {
+		for u(t, 3, "pre") == 0 {
+			if n, ok := pick(0, "prefix"); ok {
+				c.Mix = append(c.Mix, n)
+			} else {
+				break
+			}
+		}
+		if len(any) > 0 && u(t, 6, "functional") == 0 {
+			c.Mix = append(c.Mix, "@"+any[u(t, len(any), "fn")])
+		} else {
+			c.Mix = append(c.Mix, []string{"a", "b", "c"}[u(t, 3, "operand")])
+		}
+		for u(t, 4, "post") == 0 {
+			if n, ok := pick(1, "postfix"); ok {
+				c.Mix = append(c.Mix, n)
+			} else {
+				break
+			}
+		}
+	}
+	operand()
+	for k, n := 0, u(t, 3, "ninfix"); k < n; k++ {
+		if op, ok := pick(2, "infix"); ok {
+			c.Mix = append(c.Mix, op)
+			operand()
+		}
+	}
+	return c
 }
 
 func TestProp(t *testing.T) {
 	r := h.Start(t, "C18")
 	defer r.Finish(t)
-	r.Rule("rapid-generated histories of 1-25 steps: op(P, T, N) with P in range (incl. the 699/700/701, 999/1000/1001, 1200 boundaries), 0, out of range, non-integer, unbound; T one of the seven specifiers, a non-specifier atom, a non-atom, unbound; N a single name from a pool (plain names, ISO operators, graphic and quoted names, ',', '|', '[]', '{}'), a list of names (duplicates, one invalid member at any position), a partial list, an improper list, a non-atom, unbound; and current_op/3 in every instantiation pattern with in- and out-of-domain arguments. Oracle: a model table (name, class) -> (priority, specifier) initialised from the ISO table written out independently (the first step compares it with current_op/3); transition rules as the property lists them. After every step the complete enumeration of current_op/3 equals the model; a step the model rejects must raise an error (any applicable ISO error) and change nothing; each current_op/3 pattern returns exactly the matching subset (no answers outside the domain). After an accepted definition of a plain name with a single definition, reading and writing use the table: 'a N b N c' / 'N N a' / 'a N N' parse or are syntax errors and associate as the entry says, and writeq of the term reads back. Non-trivial: a history with a rejected call after >= 2 accepted ones, or a removal, or a list argument. Distinct by history.",
+	r.Rule("rapid-generated histories of 1-25 steps: op(P, T, N) with P in range (incl. the 699/700/701, 999/1000/1001, 1200 boundaries), 0, out of range, non-integer, unbound; T one of the seven specifiers, a non-specifier atom, a non-atom, unbound; N a single name from a pool (plain names, ISO operators, graphic and quoted names, ',', '|', '[]', '{}'), a list of names (duplicates, one invalid member at any position), a partial list, an improper list, a non-atom, unbound; and current_op/3 in every instantiation pattern with in- and out-of-domain arguments. Oracle: a model table (name, class) -> (priority, specifier) initialised from the ISO table written out independently (the first step compares it with current_op/3); transition rules as the property lists them. After every step the complete enumeration of current_op/3 equals the model; a step the model rejects must raise an error (any applicable ISO error) and change nothing; each current_op/3 pattern returns exactly the matching subset (no answers outside the domain). After an accepted definition of a plain name with a single definition, reading and writing use the table: 'a N b N c' / 'N N a' / 'a N N' parse or are syntax errors and associate as the entry says, and writeq of the term reads back. Half of the cases are instead 0-4 valid definitions followed by a mixed expression - [prefix]* operand [postfix]* (infix ...)* over names of the resulting table that have one operator class, operands a/b/c or an operator name in functional notation N(b,c,d): all derivations ISO 6.3.4 allows under the model table are enumerated; none: the text must be refused; exactly one: it must be read as that term and writeq must read back; several: nothing asserted (counted). Non-trivial: a history with a rejected call after >= 2 accepted ones, or a removal, or a list argument; or a mixed expression of >= 4 tokens with at most one derivation. Distinct by history.",
 		"the model's initial table is the ISO table; where ISO leaves the outcome open (removing a non-existent operator of the conflicting class, '[]' as the names argument) either outcome is accepted")
 	r.Regress(t)
 	if r.Failed() {
@@ -575,7 +661,11 @@ func TestProp(t *testing.T) {
 		r.LabelN("accepted_definitions", st.accepted)
 		r.LabelN("rejected_calls", st.rejected)
 		r.LabelN("read_write_probes", st.probes)
-		if (st.rejected > 0 && st.accepted >= 2) || st.removals > 0 || st.lists > 0 {
+		r.LabelN("mixed_expressions", st.mix)
+		r.LabelN("mixed_expressions:one_derivation", st.mixUnique)
+		r.LabelN("mixed_expressions:no_derivation", st.mixRefused)
+		r.LabelN("mixed_expressions:ambiguous_not_asserted", st.mixAmbiguous)
+		if (st.rejected > 0 && st.accepted >= 2) || st.removals > 0 || st.lists > 0 || (st.mixUnique+st.mixRefused > 0 && len(c.Mix) >= 4) {
 			r.NonTrivial(h.Hash(c), "c18", func() any { return c.String() })
 		}
 		if err != nil {
